@@ -735,3 +735,333 @@ def inline_batch_module(items):
             index.append((ins, ops))
     L.append("  )\n)\n")
     return "".join(L), index
+
+
+# ----------------------------------------------------------------------------- label scoping (shadowed / reused label names)
+class _Br(Exception):
+    def __init__(self, level):
+        self.level = level
+
+
+class _Ret(Exception):
+    pass
+
+
+class LabelProg(object):
+    """one void function over nested block/loop/if scopes whose label names come from a two-name pool, so that names are
+    shadowed by inner scopes and reused by siblings.  Branch targets are chosen as scopes; a target is written by NAME only where the
+    WebAssembly text format (innermost binding) resolves that name to the chosen scope, otherwise by numeric depth.  Every loop head burns
+    fuel, so the function terminates under the correct semantics.  `run` is an independent evaluation (python) of the same tree."""
+    NAMES = ["$L", "$L", "$L", "$M", None]
+    FUEL = 24
+
+    def __init__(self, rng, size):
+        self.rng = rng
+        self.budget = size
+        self.body = self.seq([], 0)
+
+    # ---- generation: scopes is the list of (kind, name) from outermost to innermost (the function body is the implicit level -1)
+    def cond(self):
+        k = self.rng.randrange(6)
+        return ("xbit", k) if self.rng.random() < 0.6 else ("accbit", self.rng.randrange(3))
+
+    def target(self, scopes):
+        """(level, text): level -1 = the function body.  Scopes whose name is also bound further out (shadowing) are preferred."""
+        cands = []
+        for lvl in range(-1, len(scopes)):
+            name = scopes[lvl][1] if lvl >= 0 else None
+            w = 1
+            if name is not None:
+                bound = [i for i, s in enumerate(scopes) if s[1] == name]
+                if len(bound) > 1:
+                    w = 5 if bound[-1] == lvl else 2       # innermost of several: reachable by name; outer ones only by number
+            cands.append((lvl, w))
+        r = self.rng.randrange(sum(w for _, w in cands))
+        for lvl, w in cands:
+            if r < w:
+                break
+            r -= w
+        depth = len(scopes) - 1 - lvl
+        name = scopes[lvl][1] if lvl >= 0 else None
+        by_name = name is not None and max(i for i, s in enumerate(scopes) if s[1] == name) == lvl
+        if by_name and self.rng.random() < 0.8:
+            return lvl, name
+        return lvl, str(depth)
+
+    def seq(self, scopes, depth):
+        out = []
+        n = self.rng.randrange(1, 4)
+        for _ in range(n):
+            if self.budget <= 0:
+                break
+            self.budget -= 1
+            r = self.rng.random()
+            if r < 0.22 or depth >= 5:
+                out.append(("emit", self.rng.randrange(1, 7)))
+            elif r < 0.45:
+                out.append(("br_if", self.target(scopes), self.cond()))
+            elif r < 0.52 and scopes:
+                out.append(("br", self.target(scopes)))
+                break                                   # nothing after an unconditional branch
+            elif r < 0.60 and scopes:
+                # non-default entries are kept textually distinct (wat2x64 names its per-case labels after the target text: a repeated
+                # entry is rejected by the assembler - covered by its own module); the default may repeat an entry
+                ts, seen = [], set()
+                for _ in range(self.rng.randrange(1, 4) * 3):
+                    t = self.target(scopes)
+                    if t[1] not in seen and len(ts) < 3:
+                        seen.add(t[1])
+                        ts.append(t)
+                ts.append(self.target(scopes))
+                out.append(("br_table", ts, ("idx", self.rng.randrange(1, 5))))
+                break
+            else:
+                kind = self.rng.choice(["block", "block", "loop", "if"])
+                name = self.rng.choice(self.NAMES)
+                sc = scopes + [(kind, name)]
+                if kind == "if":
+                    out.append(("if", name, self.cond(), self.seq(sc, depth + 1), self.seq(sc, depth + 1) if self.rng.random() < 0.6 else None))
+                else:
+                    out.append((kind, name, self.seq(sc, depth + 1)))
+        out.append(("emit", self.rng.randrange(1, 7)))
+        return out
+
+    # ---- WAT
+    def wat_cond(self, c):
+        if c[0] == "xbit":
+            return "local.get $x i32.const %d i32.shr_u i32.const 1 i32.and" % c[1]
+        if c[0] == "accbit":
+            return "global.get $acc i32.const %d i32.shr_u i32.const 1 i32.and" % c[1]
+        return "local.get $x global.get $acc i32.add i32.const %d i32.rem_u" % c[1]
+
+    def wat_seq(self, seq, ind):
+        pad = "  " * ind
+        L = []
+        for s in seq:
+            if s[0] == "emit":
+                L.append("%sglobal.get $acc i32.const 7 i32.mul i32.const %d i32.add global.set $acc" % (pad, s[1]))
+            elif s[0] == "br":
+                L.append("%sbr %s" % (pad, s[1][1]))
+            elif s[0] == "br_if":
+                L.append("%s%s br_if %s" % (pad, self.wat_cond(s[2]), s[1][1]))
+            elif s[0] == "br_table":
+                L.append("%s%s br_table %s" % (pad, self.wat_cond(s[2]), " ".join(t[1] for t in s[1])))
+            elif s[0] in ("block", "loop"):
+                L.append("%s%s%s" % (pad, s[0], " " + s[1] if s[1] else ""))
+                if s[0] == "loop":
+                    L.append("%s  local.get $fuel i32.eqz if return end local.get $fuel i32.const 1 i32.sub local.set $fuel" % pad)
+                L += self.wat_seq(s[2], ind + 1)
+                L.append("%send" % pad)
+            elif s[0] == "if":
+                L.append("%s%s" % (pad, self.wat_cond(s[2])))
+                L.append("%sif%s" % (pad, " " + s[1] if s[1] else ""))
+                L += self.wat_seq(s[3], ind + 1)
+                if s[4] is not None:
+                    L.append("%selse" % pad)
+                    L += self.wat_seq(s[4], ind + 1)
+                L.append("%send" % pad)
+        return L
+
+    def wat_func(self, name):
+        return "  (func %s (param $x i32) (local $fuel i32)\n    i32.const %d local.set $fuel\n%s\n  )\n" % (
+            name, self.FUEL, "\n".join(self.wat_seq(self.body, 2)))
+
+    # ---- reference evaluation
+    def ev_cond(self, c, st):
+        if c[0] == "xbit":
+            return (st["x"] >> c[1]) & 1
+        if c[0] == "accbit":
+            return (st["acc"] >> c[1]) & 1
+        return ((st["x"] + st["acc"]) & 0xffffffff) % c[1]
+
+    def ev_seq(self, seq, level, st):
+        for s in seq:
+            if s[0] == "emit":
+                st["acc"] = (st["acc"] * 7 + s[1]) & 0xffffffff
+            elif s[0] == "br":
+                raise _Br(s[1][0])
+            elif s[0] == "br_if":
+                if self.ev_cond(s[2], st):
+                    raise _Br(s[1][0])
+            elif s[0] == "br_table":
+                i = self.ev_cond(s[2], st)
+                ts = s[1]
+                raise _Br(ts[i][0] if i < len(ts) - 1 else ts[-1][0])
+            elif s[0] == "block":
+                try:
+                    self.ev_seq(s[2], level + 1, st)
+                except _Br as b:
+                    if b.level != level:
+                        raise
+            elif s[0] == "loop":
+                while True:
+                    if st["fuel"] == 0:
+                        raise _Ret()
+                    st["fuel"] -= 1
+                    try:
+                        self.ev_seq(s[2], level + 1, st)
+                        break
+                    except _Br as b:
+                        if b.level != level:
+                            raise
+            elif s[0] == "if":
+                arm = s[3] if self.ev_cond(s[2], st) else s[4]
+                if arm is not None:
+                    try:
+                        self.ev_seq(arm, level + 1, st)
+                    except _Br as b:
+                        if b.level != level:
+                            raise
+
+    def run(self, x, acc0):
+        st = {"x": x & 0xffffffff, "acc": acc0, "fuel": self.FUEL}
+        try:
+            self.ev_seq(self.body, 0, st)
+        except _Br as b:
+            assert b.level == -1
+        except _Ret:
+            pass
+        return st["acc"]
+
+    def shadowing(self):
+        """number of by-name branches whose name is bound by more than one enclosing scope (the interesting ones)"""
+        cnt = [0]
+
+        def walk(seq, scopes):
+            for s in seq:
+                if s[0] in ("br", "br_if"):
+                    ts = [s[1]]
+                elif s[0] == "br_table":
+                    ts = s[1]
+                else:
+                    ts = []
+                for lvl, txt in ts:
+                    if txt.startswith("$") and sum(1 for sc in scopes if sc[1] == txt) > 1:
+                        cnt[0] += 1
+                if s[0] in ("block", "loop"):
+                    walk(s[2], scopes + [(s[0], s[1])])
+                elif s[0] == "if":
+                    walk(s[3], scopes + [("if", s[1])])
+                    if s[4] is not None:
+                        walk(s[4], scopes + [("if", s[1])])
+        walk(self.body, [])
+        return cnt[0]
+
+
+LABEL_FIXED = """  (func $fx_block_in_block (param $x i32)
+    block $L
+      block $L
+        local.get $x br_if $L
+        global.get $acc i32.const 1 i32.add global.set $acc
+      end
+      global.get $acc i32.const 10 i32.add global.set $acc
+    end
+    global.get $acc i32.const 100 i32.add global.set $acc
+  )
+  (func $fx_loop_block (param $x i32) (local $i i32)
+    loop $L
+      block $L
+        local.get $i i32.const 1 i32.add local.tee $i
+        local.get $x i32.lt_u
+        br_if $L
+        global.get $acc i32.const 1000 i32.add global.set $acc
+      end
+      global.get $acc i32.const 1 i32.add global.set $acc
+      local.get $i i32.const 3 i32.lt_u br_if $L
+    end
+  )
+  (func $fx_block_loop (param $x i32) (local $i i32)
+    block $L
+      loop $L
+        local.get $i i32.const 1 i32.add local.tee $i
+        local.get $x i32.ge_u br_if 1
+        global.get $acc i32.const 3 i32.add global.set $acc
+        br $L
+      end
+    end
+    global.get $acc i32.const 50 i32.add global.set $acc
+  )
+  (func $fx_if_shadow (param $x i32)
+    block $L
+      local.get $x i32.const 1 i32.and
+      if $L
+        local.get $x i32.const 2 i32.and br_if $L
+        global.get $acc i32.const 5 i32.add global.set $acc
+      else
+        local.get $x i32.const 4 i32.and br_if $L
+        global.get $acc i32.const 6 i32.add global.set $acc
+      end
+      global.get $acc i32.const 20 i32.add global.set $acc
+    end
+  )
+  (func $fx_three (param $x i32)
+    block $L
+      block $M
+        block $L
+          block $M
+            local.get $x br_table $L $M 2 3 $L
+          end
+          global.get $acc i32.const 1 i32.add global.set $acc
+        end
+        global.get $acc i32.const 10 i32.add global.set $acc
+      end
+      global.get $acc i32.const 100 i32.add global.set $acc
+    end
+    global.get $acc i32.const 1000 i32.add global.set $acc
+  )
+  (func $fx_sibling (param $x i32)
+    block $L
+      local.get $x i32.const 1 i32.and br_if $L
+      global.get $acc i32.const 1 i32.add global.set $acc
+    end
+    block $L
+      local.get $x i32.const 2 i32.and br_if $L
+      global.get $acc i32.const 10 i32.add global.set $acc
+    end
+    loop $L
+      global.get $acc i32.const 100 i32.add global.set $acc
+      global.get $acc i32.const 350 i32.lt_u br_if $L
+    end
+  )
+"""
+LABEL_FIXED_NAMES = ["$fx_block_in_block", "$fx_loop_block", "$fx_block_loop", "$fx_if_shadow", "$fx_three", "$fx_sibling"]
+
+
+def label_module(rng, nfuncs, size):
+    """returns (wat, expected lines or None per printed line, number of shadowed by-name branches)"""
+    G = "  (global $acc (mut i32) (i32.const 0))\n"
+    progs = [LabelProg(rng, size) for _ in range(nfuncs)]
+    F = [LABEL_FIXED] + [p.wat_func("$lb%d" % i) for i, p in enumerate(progs)]
+    body = ['  (func $main (export "_start")\n']
+    expect = []
+    for nm in LABEL_FIXED_NAMES:
+        for x in (0, 1, 2, 3, 4, 7):
+            body.append("    i32.const 0 global.set $acc i32.const %d call %s global.get $acc call $p32\n" % (x, nm))
+            expect.append(None)
+    for i, p in enumerate(progs):
+        for x in [0, 0x3f, 0x15, 0x2a] + [rng.randrange(64) for _ in range(3)]:
+            a0 = rng.randrange(8)
+            body.append("    i32.const %d global.set $acc i32.const %d call $lb%d global.get $acc call $p32\n" % (a0, x, i))
+            expect.append(str(p.run(x, a0)))
+    body.append("  )\n")
+    return mod("".join(F) + "".join(body), extra=G), expect, sum(p.shadowing() for p in progs)
+
+
+def br_table_repeated_module():
+    """br_table whose non-default entries repeat a target (by number and by shadowed name)"""
+    G = "  (global $acc (mut i32) (i32.const 0))\n"
+    F = ("  (func $rep (param $x i32)\n    block $L\n      block $M\n        block $L\n          local.get $x br_table 1 1 $L $L 2 $M\n        end\n"
+         "        global.get $acc i32.const 1 i32.add global.set $acc\n      end\n      global.get $acc i32.const 10 i32.add global.set $acc\n    end\n"
+         "    global.get $acc i32.const 100 i32.add global.set $acc\n  )\n")
+    body = '  (func $main (export "_start")\n' + "".join(
+        "    i32.const 0 global.set $acc i32.const %d call $rep global.get $acc call $p32\n" % x for x in range(7)) + "  )\n"
+    return mod(F + body, extra=G)
+
+
+def label_hang_module():
+    """a branch by a shadowed name out of a block inside a loop of the same name: bound to the loop it never terminates"""
+    G = "  (global $acc (mut i32) (i32.const 0))\n"
+    F = ("  (func $spin (param $x i32)\n    loop $L\n      block $L\n        global.get $acc i32.const 1 i32.add global.set $acc\n        br $L\n      end\n"
+         "      global.get $acc i32.const 10 i32.add global.set $acc\n    end\n  )\n")
+    body = '  (func $main (export "_start")\n    i32.const 0 call $spin global.get $acc call $p32\n  )\n'
+    return mod(F + body, extra=G)
